@@ -4,15 +4,15 @@
 # rewrites the "checks_run_against_it" part of each meta.json. Output lines also go to /tmp/reeval_all.out.
 cd /verif
 P=${1:-3}
-: > /tmp/reeval_all.out
+: > ${REEVAL_OUT:=/tmp/reeval_all.out}
 for d in seeded/*/; do
   n=$(basename $d); p=${n:0:3}; extra=""
   case $n in C04H|C03H) extra=" C16";; esac
   echo "/verif/$d/patch.diff $n quick $p$extra"
-done | xargs -P $P -L 1 ./tools/eval_seeded.sh >> /tmp/reeval_all.out 2>&1
+done | xargs -P $P -L 1 ./tools/eval_seeded.sh >> $REEVAL_OUT 2>&1
 python3 - <<'PY'
 import json, re, glob, os
-lines = [l.rstrip("\n") for l in open("/tmp/reeval_all.out")]
+lines = [l.rstrip("\n") for l in open(os.environ.get("REEVAL_OUT", "/tmp/reeval_all.out"))]
 by = {}
 for l in lines:
     m = re.match(r"(\S+) (C\d+) (\w+) rc=(\d+)\s+(.*)", l)
